@@ -52,9 +52,17 @@ func c09sched(c *core.Ctx) {
 		{name: "PUBLISH, DISCONNECT with a reserved flag, close at once", segments: [][]*refcodec.Packet{{q0("d1")}}, raw: []byte{0xE1, 0x00}, data: 1},
 	}
 	for _, tl := range tails {
-		for _, wq := range []byte{0, 1} {
+		for _, wq := range []byte{0, 1, 2} {
 			tl, wq := tl, wq
-			scs = append(scs, scen{fmt.Sprintf("%s (will QoS %d)", tl.name, wq), func() {
+			// third variant (will QoS 0 again): the connection reports the end of the stream
+			// together with the last bytes (n > 0 and io.EOF from one Read, as TLS connections do)
+			eofWithData := wq == 2
+			nm := fmt.Sprintf("%s (will QoS %d)", tl.name, wq)
+			if eofWithData {
+				wq = 0
+				nm = tl.name + " (will QoS 0; the last bytes and the end of the stream arrive in one Read)"
+			}
+			scs = append(scs, scen{nm, func() {
 				t := newTD()
 				w := t.connect("W", 0, 65535, false)
 				t.subscribe("W", "#", 2)
@@ -63,6 +71,9 @@ func c09sched(c *core.Ctx) {
 				if err != nil {
 					vsched.Failf("harness: dial: %v", err)
 					return
+				}
+				if eofWithData {
+					xc.vc.PeerReadsEOFWithData()
 				}
 				xc.Send(ConnectPacket(ConnectOpts{ClientID: "x", Clean: true, KeepAlive: 65535, Will: &Will{"w/x", "last words", wq, wq == 1}}))
 				t.w.Settle()
